@@ -1617,7 +1617,7 @@ class Transaction(object):
 
         r += int_to_varbyteint(len(self.inputs))
         r_witness = b''
-        for i in self.inputs:
+        for n, i in enumerate(self.inputs):
             r += i.prev_txid[::-1] + i.output_n[::-1]
             if i.witnesses and i.witness_type != 'legacy':
                 r_witness += int_to_varbyteint(len(i.witnesses)) + b''.join([bytes(varstr(w)) for w in i.witnesses])
@@ -1627,7 +1627,7 @@ class Transaction(object):
                 if i.script_type == 'nonstandard_0001':
                     r += b'\1'
                 r += varstr(i.unlocking_script)
-            elif sign_id == i.index_n:
+            elif sign_id == n:
                 if i.script_type == 'p2sh_multisig':
                     r += varstr(i.redeemscript)
                 else:
@@ -1694,9 +1694,9 @@ class Transaction(object):
         self.verified = False
         for inp in self.inputs:
             inp.valid = None
-        for inp in self.inputs:
+        for n, inp in enumerate(self.inputs):
             try:
-                transaction_hash = self.signature_hash(inp.index_n, inp.hash_type, inp.witness_type)
+                transaction_hash = self.signature_hash(n, inp.hash_type, inp.witness_type)
             except TransactionError as e:
                 _logger.info("Could not create transaction hash. Error: %s" % e)
                 return False
